@@ -13,6 +13,8 @@ From Coq Require Import String.
 From Coq Require Import List ZArith Bool Arith.
 Import ListNotations.
 From TI Require Import gen.Consts model.KittyChunks proofs.KittyChunksProofs.
+From TI Require gen.ChunksSrc proofs.ChunksSrcTie.
+From TI Require Import model.GfxPlan proofs.GfxPlanProofs.
 
 (** what the terminal reassembles from the chunks is the payload *)
 Theorem C03_chunks_concat :
@@ -188,3 +190,149 @@ Theorem C03_read_from_file_gate :
     rff = true /\ animated = false /\ readable = true /\ m = Whole /\ oa <= ra.
 Proof. exact read_from_file_gate_spec. Qed.
 Print Assumptions C03_read_from_file_gate.
+
+(** * Round 4 — the render method as (set method, per-render override), and the
+    environment changing during one render.
+
+    [kitty_plan] / [iterm2_plan] (model/GfxPlan.v) mirror the decisions of the two
+    [_render_image]: [set] is the method set on the instance or its class (None = never
+    set), [over] the render's own [method] argument; [env k] is the cell size answered to
+    the k-th get_cell_size() call of this render — ANY function, i.e. the terminal may be
+    zoomed / resized between any two reads. *)
+
+(** the per-render override wins, then the method set, then LINES *)
+Theorem C03_method_resolution :
+  forall set over,
+    (forall m, over = Some m -> resolve_method set over = m)
+    /\ (over = None -> forall m, set = Some m -> resolve_method set over = m)
+    /\ (over = None -> set = None -> resolve_method set over = Lines).
+Proof. exact resolve_method_spec. Qed.
+Print Assumptions C03_method_resolution.
+
+(** kitty: the transmitted pixel size and the LINES/WHOLE framing branch are decided by
+    the SAME method — the resolved one — and the size is that method's size for the cell
+    size of the render's first read.  (False of a render that chooses the size by the set
+    method and the branch by the effective one: [split_method_breaks_cover] in
+    proofs/GfxPlanProofs.v.) *)
+Theorem C03_kitty_one_effective_method :
+  forall set over rw rh env os,
+    let p := kitty_plan set over rw rh env os in
+    kp_size_method p = kp_branch_method p
+    /\ kp_branch_method p = resolve_method set over
+    /\ kp_size p = pixel_size (kp_branch_method p) rw rh (fst (env 0)) (snd (env 0)) os.
+Proof. exact kitty_one_method. Qed.
+Print Assumptions C03_kitty_one_effective_method.
+
+(** kitty LINES, for every (set, override) pair that resolves to LINES, every source size
+    and EVERY environment: the image prepared is [rh] cells high, each strip is one cell
+    high (both for the cell size of the single read), the rows sent are exactly the rows
+    prepared, and strips x bytes-per-strip = the whole raw image *)
+Theorem C03_kitty_lines_cover :
+  forall set over rw rh env os bpp, 0 < rh ->
+    let p := kitty_plan set over rw rh env os in
+    kp_branch_method p = Lines ->
+    kp_size p = (rw * fst (env 0), rh * snd (env 0))
+    /\ kp_strip_h p = snd (env 0)
+    /\ kp_rows_sent p rh = snd (kp_size p)
+    /\ bytes_per_line (fst (kp_size p)) (snd (kp_size p)) rh bpp * rh
+       = fst (kp_size p) * snd (kp_size p) * bpp.
+Proof. exact kitty_lines_cover. Qed.
+Print Assumptions C03_kitty_lines_cover.
+
+(** ... so the strips read from a raw image of the prepared size stitch back to it, each
+    exactly s x v x bytes-per-pixel bytes, one per line *)
+Theorem C03_kitty_lines_stitch :
+  forall (B : Type) set over rw rh env os bpp (raw : list B), 0 < rh ->
+    let p := kitty_plan set over rw rh env os in
+    kp_branch_method p = Lines ->
+    length raw = fst (kp_size p) * snd (kp_size p) * bpp ->
+    let bpl := bytes_per_line (fst (kp_size p)) (snd (kp_size p)) rh bpp in
+    concat (strips raw bpl rh) = raw
+    /\ Forall (fun x => length x = fst (kp_size p) * kp_strip_h p * bpp) (strips raw bpl rh)
+    /\ length (strips raw bpl rh) = rh.
+Proof. exact kitty_lines_stitch. Qed.
+Print Assumptions C03_kitty_lines_stitch.
+
+(** kitty: ONE read of the environment — two environments that agree on the first answer
+    give the same render plan, however they differ afterwards *)
+Theorem C03_kitty_single_read :
+  forall set over rw rh env env' os, env 0 = env' 0 ->
+    kitty_plan set over rw rh env os = kitty_plan set over rw rh env' os
+    /\ kp_cell_reads (kitty_plan set over rw rh env os) = 1.
+Proof. exact kitty_single_read. Qed.
+Print Assumptions C03_kitty_single_read.
+
+(** kitty WHOLE: the rows sent are the rows prepared, at the source or the render
+    resolution of the single read *)
+Theorem C03_kitty_whole_size :
+  forall set over rw rh env os,
+    let p := kitty_plan set over rw rh env os in
+    kp_branch_method p = Whole ->
+    kp_rows_sent p rh = snd (kp_size p)
+    /\ (kp_size p = os \/ kp_size p = (rw * fst (env 0), rh * snd (env 0))).
+Proof. exact kitty_whole_size. Qed.
+Print Assumptions C03_kitty_whole_size.
+
+(** iterm2: branch and pixel size are decided by the one resolved method (after the
+    ANIM -> WHOLE fall-back); the LINES branch is only taken with the LINES size *)
+Theorem C03_iterm2_one_effective_method :
+  forall set over animated frame rw rh env os rff readable mc alpha,
+    let m := resolve_method set over in
+    let p := iterm2_plan set over animated frame rw rh env os rff readable mc alpha in
+    ip_branch p = iterm2_branch m animated frame
+    /\ ip_size_method p = iterm2_effective_method m animated frame
+    /\ (ip_branch p <> BNative ->
+        ip_size p = pixel_size (ip_size_method p) rw rh (fst (env 0)) (snd (env 0)) os)
+    /\ (ip_branch p = BLines -> ip_size_method p = Lines).
+Proof. exact iterm2_one_method. Qed.
+Print Assumptions C03_iterm2_one_effective_method.
+
+(** iterm2 LINES, every (set, override), every environment: strips of the cell height of
+    the single read covering exactly the rows prepared; never the untouched file.  (False
+    of a render that takes the strip height from a later read:
+    [iterm2_second_read_breaks_cover].) *)
+Theorem C03_iterm2_lines_cover :
+  forall set over animated frame rw rh env os rff readable mc alpha, 0 < rh ->
+    let p := iterm2_plan set over animated frame rw rh env os rff readable mc alpha in
+    ip_branch p = BLines ->
+    ip_size p = (rw * fst (env 0), rh * snd (env 0))
+    /\ ip_strip_h p = snd (env 0)
+    /\ rh * ip_strip_h p = snd (ip_size p)
+    /\ ip_gate p = false.
+Proof. exact iterm2_lines_cover. Qed.
+Print Assumptions C03_iterm2_lines_cover.
+
+(** iterm2: branch, pixel size and strip height are functions of the FIRST read alone; at
+    most one more read is made (by the read-from-file gate) and it influences nothing
+    else: environments agreeing on the first two answers give the same plan *)
+Theorem C03_iterm2_geometry_single_read :
+  forall set over animated frame rw rh env env' os rff readable mc alpha, env 0 = env' 0 ->
+    let p := iterm2_plan set over animated frame rw rh env os rff readable mc alpha in
+    let p' := iterm2_plan set over animated frame rw rh env' os rff readable mc alpha in
+    ip_branch p = ip_branch p' /\ ip_size p = ip_size p' /\ ip_strip_h p = ip_strip_h p'
+    /\ ip_cell_reads p = ip_cell_reads p' /\ ip_cell_reads p <= 2
+    /\ (env 1 = env' 1 -> p = p').
+Proof. exact iterm2_geometry_single_read. Qed.
+Print Assumptions C03_iterm2_geometry_single_read.
+
+(** iterm2: the untouched source file is sent (outside a native animation) only under the
+    documented conditions, whatever the second read answers *)
+Theorem C03_iterm2_plan_gate :
+  forall set over animated frame rw rh env os rff readable mc alpha,
+    let p := iterm2_plan set over animated frame rw rh env os rff readable mc alpha in
+    ip_branch p <> BNative -> ip_gate p = true ->
+    rff = true /\ animated = false /\ readable = true /\ ip_size_method p = Whole
+    /\ ip_branch p = BWhole /\ ip_cell_reads p = 2.
+Proof. exact iterm2_plan_gate. Qed.
+Print Assumptions C03_iterm2_plan_gate.
+
+(** *** the chunker tied to the source as a theorem (T): the generator [Transmission.get_chunks]
+    is translated from [image/kitty.py] on every run into [gen/ChunksSrc.v] by
+    [harness/tx/tx_chunks.py] (the read-ahead loop becomes a fuelled [Fixpoint]); for ALL payloads
+    and chunk sizes it yields exactly the chunk list of the model [chunks], the function every
+    framing theorem above is about *)
+Theorem C03_source_get_chunks :
+  forall (C : Type) size (payload : list C),
+    TI.gen.ChunksSrc.src_get_chunks size payload = chunks size payload.
+Proof. exact TI.proofs.ChunksSrcTie.get_chunks_is_source. Qed.
+Print Assumptions C03_source_get_chunks.
